@@ -682,6 +682,15 @@ pub fn run(ctx: &mut Ctx) {
     ctx.run_cases("ligero-uni", n / 2, |ctx, _i, rng| linear::<UniLigeroS>(ctx, rng));
     ctx.run_cases("ligero-ml", n / 2, |ctx, _i, rng| linear::<MlLigeroS>(ctx, rng));
     ctx.run_cases("brakedown", n / 4, |ctx, _i, rng| linear::<BrakedownS>(ctx, rng));
+    // keys for more than a thousand coefficients
+    set_large(true);
+    let nl = if ctx.is_thorough() { 6 } else { 2 };
+    ctx.run_cases("marlin/large", nl, |ctx, _i, rng| marlin::<E381>(ctx, rng));
+    ctx.run_cases("sonic/large", nl, |ctx, _i, rng| sonic::<E381>(ctx, rng));
+    ctx.run_cases("ipa/large", nl, |ctx, _i, rng| ipa(ctx, rng));
+    ctx.run_cases("hyrax/large", nl, |ctx, _i, rng| hyrax(ctx, rng));
+    ctx.run_cases("pst13/large", nl / 2, |ctx, _i, rng| pst13(ctx, rng));
+    set_large(false);
     if ctx.is_thorough() {
         ctx.run_cases("marlin-377", n / 3, |ctx, _i, rng| marlin::<E377>(ctx, rng));
         ctx.run_cases("sonic-377", n / 3, |ctx, _i, rng| sonic::<E377>(ctx, rng));
